@@ -93,8 +93,16 @@ class TreeScenario(explore.Scenario):
         return p
 
     def advance(self, w, ev):
+        # the queries are part of the history too (an implementation may
+        # cache what it answered): issue them, do not judge them again
         self._do(w, ev)
         w.cw.sent()
+        for q in UNIVERSE + OUTSIDERS:
+            self._call(w, q, 'org.ex.T', 'Ping')
+            self._call(w, q, 'org.freedesktop.DBus.Introspectable',
+                       'Introspect')
+            self._call(w, q, 'org.freedesktop.DBus.ObjectManager',
+                       'GetManagedObjects')
 
     def _call(self, w, path, iface, member):
         w.serial += 1
